@@ -484,6 +484,24 @@ Proof.
   cbv beta iota; apply safe_emit_neutral; [apply neutral_cli; reflexivity|exact I].
 Qed.
 
+(** [finish] with what it leaves behind: the thread is outside every section *)
+Lemma safe_finish_ev t s l : IdleS s l -> safe t (finish s) l (fun _ l' => l_ev l' = O /\ l_w l' = WIdle).
+Proof.
+  intros (HI & Hnd). destruct s as [rec d]. cbn [my_rec my_depth] in *. unfold finish. cbn [my_rec my_depth].
+  destruct rec as [m|].
+  - cbv beta iota; apply safe_bind. apply safe_leave_all with (d := d); [exact HI|]. intros l' HI'.
+    cbv beta iota; apply safe_bind. apply safe_detach; [exact HI'|]. intros l'' (H1 & H2 & H3 & H4 & H5).
+    cbv beta iota; apply safe_emit_neutral; [apply neutral_cli; reflexivity|]. cbn. split; assumption.
+  - destruct HI as (H1 & H2 & H3 & H4 & H5). cbn. rewrite (Hnd eq_refl) in H4. split; assumption.
+Qed.
+
+Lemma ev0_closed g a tr t : Inv g a tr -> l_ev (a t) = O ->
+  forall s, at_ tr s t is_rlock1 -> exists b, (s < b)%nat /\ at_ tr b t is_runlock0.
+Proof.
+  intros (I1 & _ & _ & I4) H s Hat. destruct (RD _ _ I1 t) as (_ & D & _). assert (Hc : l_cs (a t) = None) by (apply D; exact H).
+  destruct (T2 _ _ I4 t s Hat) as [A|(b & Hb & Hrb & _)]; [congruence|]. exists b. auto.
+Qed.
+
 Lemma safe_run_ops t fuel os : forall s l, IdleS s l -> safe t (run_ops 2 fuel t s os) l (@Conc.QTrue L).
 Proof.
   induction os as [|o r IH]; intros s l HI; cbn [run_ops].
